@@ -19,6 +19,7 @@ from .strategies import (
     resolve_strategy_inline_source,
 )
 from ..diffing import diff as perform_diff
+from ..diffing.generic import strict_equal
 from ..diff_format import (
     DiffEntry, DiffOp, ParentDeleted, Missing,
     op_patch, op_addrange, op_removerange)
@@ -245,7 +246,7 @@ def _merge_dicts(base, local_diff, remote_diff, path, parent_decisions, strategi
             # Note that this means the below cases always have the same op
             # (5) Conflict: edited in different ways
             decisions.conflict(path, [ld], [rd], item_strategy)
-        elif ld == rd:
+        elif strict_equal(ld, rd):
             # If inserting/replacing/patching produces the same value, just use
             # it
             decisions.agreement(path, ld, rd)
@@ -489,7 +490,7 @@ def _merge_lists(base, local_diff, remote_diff, path, parent_decisions, strategi
             decisions.onesided(path, d0, d1)
 
         # Exactly the same modifications
-        elif d0 == d1:
+        elif strict_equal(d0, d1):
             decisions.agreement(path, d0, d1)
 
         # Should always agree above because of chunking
@@ -517,7 +518,7 @@ def _merge_lists(base, local_diff, remote_diff, path, parent_decisions, strategi
             rv = patch(bv, d1[1].diff)
             p0 = [op_addrange(key, [lv]), op_removerange(key, 1)]
             p1 = [op_addrange(key, [rv]), op_removerange(key, 1)]
-            if lv == rv:
+            if strict_equal(lv, rv):
                 decisions.agreement(item_path, p0, p1)
             else:
                 decisions.conflict(item_path, p0, p1, parent_strategy)
@@ -535,7 +536,7 @@ def _merge_lists(base, local_diff, remote_diff, path, parent_decisions, strategi
                 decisions.onesided(path, a0, a1)
 
             # Then deal with patches and/or removals
-            if p0 == p1:
+            if strict_equal(p0, p1):
                 decisions.agreement(path, p0, p1)
             elif pchunktype == "P/P":
                 # Otherwise recurse and pass on unresolved conflicts
